@@ -367,6 +367,10 @@ func (d *Decoder) unmarshal(val reflect.Value, tagType byte) error {
 		if listLen < 0 {
 			return errors.New("list length less than 0")
 		}
+		if listType > TagLongArray {
+			// the element decoder is only asked per element: an empty list has to be checked here
+			return fmt.Errorf("unknown list element type %#02x", listType)
+		}
 
 		// If we need parse TAG_List into slice, make a new with right length.
 		// Otherwise, if we need parse into array, we check if len(array) are enough.
@@ -654,6 +658,10 @@ func (d *Decoder) rawRead(tagType byte) error {
 		}
 		if listLen < 0 {
 			return errors.New("list length less than 0")
+		}
+		if listType > TagLongArray {
+			// the element decoder is only asked per element: an empty list has to be checked here
+			return fmt.Errorf("unknown list element type %#02x", listType)
 		}
 		for i := 0; i < int(listLen); i++ {
 			if err := d.rawRead(listType); err != nil {
